@@ -78,7 +78,7 @@ func (c03) Gen(r *rand.Rand, tier string, idx int) *core.Plan {
 		case x < 5:
 			p.Ops = append(p.Ops, core.Op{Kind: "removecert", I: []int64{st, int64(r.IntN(4))}})
 		case x < 6:
-			p.Ops = append(p.Ops, core.Op{Kind: "break", I: []int64{st, int64(r.IntN(4))}}) // 0 empty 1 symlink 2 garbage 3 remove store
+			p.Ops = append(p.Ops, core.Op{Kind: "break", I: []int64{st, int64(r.IntN(6))}}) // 0 empty 1 symlink 2 garbage 3 remove store 4 a zero-byte file next to the rest 5 nothing but a zero-byte file
 		default:
 			p.Ops = append(p.Ops, core.Op{Kind: "verify", I: []int64{int64(r.IntN(2)), int64(r.IntN(2)), int64(r.IntN(3) / 2)}}) // scheme, format, entry point (OCI / blob)
 			nv++
@@ -254,6 +254,14 @@ func (l c03) Exec(env *core.Env) *core.Result {
 					}
 				case 3:
 					os.RemoveAll(storeDir)
+				case 4, 5:
+					if fi, err := os.Lstat(storeDir); err == nil && fi.Mode()&os.ModeSymlink == 0 {
+						if op.Int(1) == 5 {
+							os.RemoveAll(storeDir)
+							os.MkdirAll(storeDir, 0755)
+						}
+						os.WriteFile(filepath.Join(storeDir, "empty.crt"), nil, 0644)
+					}
 				}
 			case "verify":
 				scheme, required := signature.SigningSchemeX509, "ca"
